@@ -274,6 +274,9 @@ func (c *Ctx) behavModuleG(dir string, methods []BMethod, generic bool, cfg stri
 	if b, err := os.ReadFile(filepath.Join(c.Src, "go.sum")); err == nil {
 		files["go.sum"] = string(b)
 	}
+	if strings.Contains(cfg, "  example.com/m:\n") {
+		files["root.go"] = "// Package m is the module's root package.\npackage m\n\ntype Unmocked struct{ N int }\n"
+	}
 	if strings.Contains(cfg, "example.com/m/decoy:") {
 		_, df := decoyPackages(nil)
 		for k, v := range df {
